@@ -29,7 +29,12 @@ def run(report: Report, tier, seed):
                   "the optimiser (apply_global_optimizations) and whole-program option independence are checked by a bounded stand-in only")
     # P: option-default functions
     run_contracts(report, [("contracts.c03_options", "OptimizeScratchSlots", "O3.2a"),
-                           ("contracts.c03_options", "UseFramePointers", "O3.2b")])
+                           ("contracts.c03_options", "UseFramePointers", "O3.2b"),
+                           ("contracts.c03_optimizer", "HasLoadDependencies", "O3.5")])
+    from . import opt_native
+    oc, of = opt_native.check_has_load_dependencies()
+    report.bounded.append(Bounded(function="pyteal.compiler.optimizer.optimizer._has_load_dependencies", contract="True iff another load of the slot exists anywhere in the routine",
+                                  bound="all two-block routines with <= 3 + 2 ops over {load s, store s, load t, pop} x every (block, position)", cases=oc, distinct_nontrivial=oc, failures=len(of)))
     specs = specs_for(tier, seed)
     res = e2e.sweep(specs)
     keys, ran, nontrivial = set(), 0, 0
@@ -58,9 +63,14 @@ def run(report: Report, tier, seed):
     def search(fn, obs):
         if "_apply_slot_to_stack" in fn and known:
             return known[0]
+        if "_has_load_dependencies" in fn:
+            return {"input": of[0]} if of else None
         return fails[0] if fails else None
 
+    report.settle_undecided(search)
     report.settle_refuted(search)
+    if of and not any("_has_load_dependencies" in v.what for v in report.violations):
+        report.violation(Violation(key=f"opt-native:{of[0]['block1']}:{of[0]['block2']}", what=f"_has_load_dependencies wrong on {of[0]}", replay={"input": of[0]}, confirmed_native=True))
     # the refuted optimiser obligation and its bounded witnesses are one finding
     for v in report.violations:
         if "_apply_slot_to_stack" in v.what:
